@@ -144,6 +144,8 @@ CHECKS = {
              "checks": {"quick": 6000, "thorough": 60000}, "shards": {"quick": 2, "thorough": 8}},
             {"name": "systematic", "pkg": "proxy", "run": "^TestVF_C06_Systematic$",
              "checks": {"quick": 60, "thorough": 600}, "shards": {"quick": 4, "thorough": 12}},
+            {"name": "overlap", "pkg": "proxy", "run": "^TestVF_C06_Overlap$",
+             "checks": {"quick": 800, "thorough": 8000}, "shards": {"quick": 2, "thorough": 8}},
         ],
     },
     "C17": {
